@@ -4,7 +4,7 @@ import os
 import random
 import subprocess
 
-from . import core, gen_enc, gen_dec, gen_bld, gen_fld, gen_misc
+from . import core, gen_enc, gen_dec, gen_bld, gen_fld, gen_misc, proto
 from .runner import Case, write_replay
 
 
@@ -26,7 +26,17 @@ def mixed_workload(tier, rng, scale=1):
     cases += rare + sample(rng, [c for c in c15 if c not in rare], 30 * k)
     cases += sample(rng, gen_dec.random_histories("quick", rng, 40 * k, with_pending=True), 40 * k)
     cases += sample(rng, gen_misc.gen_c16("quick", rng), 60 * k)
-    cases += sample(rng, gen_bld.gen_c13("quick", rng), 12 * k)
+    bld = gen_bld.gen_c13("quick", rng)
+    cases += sample(rng, bld, 12 * k)
+    # fixed parts (not left to sampling): the builders that take caller buffers of odd / even length (a byte read behind the caller's
+    # exactly sized array becomes padding), trackers that are copies of each other, and encodes of status / control / vendor messages
+    # (their message headers have unused id bytes that must come out zero whatever the stack held)
+    cases += [c for c in bld if c.meta.get("kind") in ("if", "cm") and "chain" not in c.tags and "max-count" not in c.tags and c not in cases][:6]
+    cases += gen_misc.c16_copy_cases("quick", rng)[:8]
+    for mt_ty in (0x0210, 0x0310, 0xFF10, 0x0301, 0x0302):
+        kind = {0x0301: "cm", 0x0302: "if"}.get(mt_ty)
+        pk = [proto.rand_packet(rng, kind) if kind else gen_enc.gpkt(rng.randrange(1, 40), rng.randrange(251), ty=mt_ty, ts=rng.getrandbits(64), vend=rng.getrandbits(16)) for _ in range(3)]
+        cases.append(gen_enc.rt_case(pk, rng.choice([0, 64]), rng.choice([64, 200]), rng.getrandbits(16), rng.getrandbits(8), ("status-control-vendor-headers",)))
     cases += gen_dec.gen_length_extremes(rng)
     cases += gen_dec.gen_overdeclared_segments("quick", rng, 12 * k)       # reads behind an exactly sized frame would reach a delivered packet
     cases += sample(rng, [c for c in gen_misc.gen_c14("quick", rng) if set(c.tags) & {"no-shared-state", "wire-packet-modified-in-place"}], 16 * k)
@@ -109,6 +119,9 @@ def extra_c20(ctx, cases, violations):
     # definedness: no decision depends on an uninitialised value (valgrind memcheck on the plain build)
     hp = core.build_harness("plain")
     sub = pairs[:: max(1, len(pairs) // (60 if ctx.tier == "quick" else 600))]
+    # always under memcheck: the encodes of status / control / vendor messages and the builder cases (printing a frame byte is a
+    # decision on its value, so an uninitialised byte that reaches an output is reported)
+    sub += [(c.name, c.ops) for c in cases if set(c.tags) & {"status-control-vendor-headers", "if", "cm"} and (c.name, c.ops) not in sub][:14]
     script = core._script(sub)
     r = subprocess.run(["valgrind", "-q", "--error-exitcode=97", "--track-origins=no", os.path.join(hp, "harness")], input=script.encode(),
                        stdout=subprocess.PIPE, stderr=subprocess.PIPE, timeout=3000)
